@@ -46,37 +46,87 @@ func cpuUser() time.Duration {
 
 // input families, parameterised by n (the input grows linearly with n)
 var c20Families = map[string]func(n int) string{
-	"one-long-line":        func(n int) string { return "SELECT a" + strings.Repeat(", a", n) + " FROM t" },
-	"many-lines":           func(n int) string { return "SELECT a\n" + strings.Repeat(", a\n", n) + "FROM t" },
-	"comment-lines":        func(n int) string { return strings.Repeat("-- c\n", n) + "SELECT 1" },
-	"inline-comments":      func(n int) string { return "SELECT a" + strings.Repeat(", a -- c\n", n) + " FROM t" },
-	"block-comments":       func(n int) string { return "SELECT 1 " + strings.Repeat("/* c */ ", n) },
-	"indented-comments":    func(n int) string { return "SELECT 1\n" + strings.Repeat(" ", n) + strings.Repeat("/**/", n) },
-	"not-chain":            func(n int) string { return "SELECT a FROM t WHERE " + strings.Repeat("NOT (", 90) + "a = 1" + strings.Repeat(")", 90) + strings.Repeat(" AND NOT NOT NOT b", n) },
-	"and-chain":            func(n int) string { return "SELECT a FROM t WHERE a = 1" + strings.Repeat(" AND a = 1", n) },
-	"or-chain":             func(n int) string { return "SELECT a FROM t WHERE a = 1" + strings.Repeat(" OR b = 2", n) },
-	"arith-chain":          func(n int) string { return "SELECT 1" + strings.Repeat(" + a * 2", n) + " FROM t" },
-	"concat-chain":         func(n int) string { return "SELECT 'x'" + strings.Repeat(" || a", n) + " FROM t" },
-	"in-list":              func(n int) string { return "SELECT a FROM t WHERE a IN (1" + strings.Repeat(", 1", n) + ")" },
-	"wide-values":          func(n int) string { return "INSERT INTO t (a) VALUES (1)" + strings.Repeat(", (1)", n) },
-	"statements":           func(n int) string { return strings.Repeat("SELECT 1;\n", n) },
-	"union-chain":          func(n int) string { return "SELECT 1" + strings.Repeat(" UNION SELECT 1", n/4+1) },
-	"joins":                func(n int) string { return "SELECT a FROM t" + strings.Repeat(" JOIN u ON t.a = u.a", n/4+1) },
-	"long-string":          func(n int) string { return "SELECT '" + strings.Repeat("x", n*4) + "'" },
-	"long-identifier":      func(n int) string { return "SELECT " + strings.Repeat("x", n*4) + " FROM t" },
-	"many-strings":         func(n int) string { return "SELECT 'a'" + strings.Repeat(", 'it''s'", n) },
-	"qualified-names":      func(n int) string { return "SELECT " + strings.Repeat("s.t.c, ", n) + "1 FROM t" },
-	"case-whens":           func(n int) string { return "SELECT CASE" + strings.Repeat(" WHEN a = 1 THEN 2", n) + " END FROM t" },
-	"function-args":        func(n int) string { return "SELECT f(1" + strings.Repeat(", a", n) + ") FROM t" },
-	"ctes":                 func(n int) string { return "WITH c0 AS (SELECT 1)" + c20ctes(n/8+1) + " SELECT 1" },
-	"crlf-lines":           func(n int) string { return "SELECT a\r\n" + strings.Repeat(", a\r\n", n) + "FROM t" },
-	"tabs":                 func(n int) string { return "SELECT a" + strings.Repeat(",\ta", n) + " FROM t" },
-	"non-ascii-identifier": func(n int) string { return "SELECT é" + strings.Repeat(", é", n) + " FROM t" },
-	"lookahead-words-line":  func(n int) string { return "SELECT full" + strings.Repeat(", left", n) + " FROM t" },
-	"lookahead-words-lines": func(n int) string { return "SELECT full\n" + strings.Repeat(", outer\n", n) + "FROM t" },
-	"dollar-words":          func(n int) string { return "SELECT 1" + strings.Repeat(", $abc", n) },
-	"group-by-list":        func(n int) string { return "SELECT a FROM t GROUP BY a" + strings.Repeat(", a", n) },
-	"order-by-list":        func(n int) string { return "SELECT a FROM t ORDER BY a" + strings.Repeat(", a DESC", n) },
+	"one-long-line":     func(n int) string { return "SELECT a" + strings.Repeat(", a", n) + " FROM t" },
+	"many-lines":        func(n int) string { return "SELECT a\n" + strings.Repeat(", a\n", n) + "FROM t" },
+	"comment-lines":     func(n int) string { return strings.Repeat("-- c\n", n) + "SELECT 1" },
+	"inline-comments":   func(n int) string { return "SELECT a" + strings.Repeat(", a -- c\n", n) + " FROM t" },
+	"block-comments":    func(n int) string { return "SELECT 1 " + strings.Repeat("/* c */ ", n) },
+	"indented-comments": func(n int) string { return "SELECT 1\n" + strings.Repeat(" ", n) + strings.Repeat("/**/", n) },
+	"not-chain": func(n int) string {
+		return "SELECT a FROM t WHERE " + strings.Repeat("NOT (", 90) + "a = 1" + strings.Repeat(")", 90) + strings.Repeat(" AND NOT NOT NOT b", n)
+	},
+	"and-chain":               func(n int) string { return "SELECT a FROM t WHERE a = 1" + strings.Repeat(" AND a = 1", n) },
+	"or-chain":                func(n int) string { return "SELECT a FROM t WHERE a = 1" + strings.Repeat(" OR b = 2", n) },
+	"arith-chain":             func(n int) string { return "SELECT 1" + strings.Repeat(" + a * 2", n) + " FROM t" },
+	"concat-chain":            func(n int) string { return "SELECT 'x'" + strings.Repeat(" || a", n) + " FROM t" },
+	"in-list":                 func(n int) string { return "SELECT a FROM t WHERE a IN (1" + strings.Repeat(", 1", n) + ")" },
+	"wide-values":             func(n int) string { return "INSERT INTO t (a) VALUES (1)" + strings.Repeat(", (1)", n) },
+	"statements":              func(n int) string { return strings.Repeat("SELECT 1;\n", n) },
+	"union-chain":             func(n int) string { return "SELECT 1" + strings.Repeat(" UNION SELECT 1", n/4+1) },
+	"joins":                   func(n int) string { return "SELECT a FROM t" + strings.Repeat(" JOIN u ON t.a = u.a", n/4+1) },
+	"long-string":             func(n int) string { return "SELECT '" + strings.Repeat("x", n*4) + "'" },
+	"long-identifier":         func(n int) string { return "SELECT " + strings.Repeat("x", n*4) + " FROM t" },
+	"many-strings":            func(n int) string { return "SELECT 'a'" + strings.Repeat(", 'it''s'", n) },
+	"qualified-names":         func(n int) string { return "SELECT " + strings.Repeat("s.t.c, ", n) + "1 FROM t" },
+	"case-whens":              func(n int) string { return "SELECT CASE" + strings.Repeat(" WHEN a = 1 THEN 2", n) + " END FROM t" },
+	"function-args":           func(n int) string { return "SELECT f(1" + strings.Repeat(", a", n) + ") FROM t" },
+	"ctes":                    func(n int) string { return "WITH c0 AS (SELECT 1)" + c20ctes(n/8+1) + " SELECT 1" },
+	"crlf-lines":              func(n int) string { return "SELECT a\r\n" + strings.Repeat(", a\r\n", n) + "FROM t" },
+	"tabs":                    func(n int) string { return "SELECT a" + strings.Repeat(",\ta", n) + " FROM t" },
+	"non-ascii-identifier":    func(n int) string { return "SELECT é" + strings.Repeat(", é", n) + " FROM t" },
+	"lookahead-words-line":    func(n int) string { return "SELECT full" + strings.Repeat(", left", n) + " FROM t" },
+	"lookahead-words-lines":   func(n int) string { return "SELECT full\n" + strings.Repeat(", outer\n", n) + "FROM t" },
+	"dollar-words":            func(n int) string { return "SELECT 1" + strings.Repeat(", $abc", n) },
+	"alternating-arith-chain": func(n int) string { return "SELECT x" + strings.Repeat(" - a + b", n/2+1) + " FROM t" },
+	"alternating-bool-chain": func(n int) string {
+		return "SELECT a FROM t WHERE a = 1" + strings.Repeat(" AND b = 2 OR c = 3", n/2+1)
+	},
+	"alternating-mul-chain": func(n int) string { return "SELECT x" + strings.Repeat(" * a / b % c", n/3+1) + " FROM t" },
+	"mixed-setop-chain": func(n int) string {
+		return "SELECT 1" + strings.Repeat(" UNION SELECT 1 UNION ALL SELECT 2 EXCEPT SELECT 3", n/12+1)
+	},
+	"unclosed-dollar-tags": func(n int) string {
+		var sb strings.Builder
+		for i := 0; i < n/2+1; i++ {
+			fmt.Fprintf(&sb, "SELECT $p%07d$ x;\n", i)
+		}
+		return sb.String()
+	},
+	"closed-dollar-tags": func(n int) string {
+		var sb strings.Builder
+		for i := 0; i < n/3+1; i++ {
+			fmt.Fprintf(&sb, "SELECT $t%d$ x $t%d$;\n", i, i)
+		}
+		return sb.String()
+	},
+	"many-quoted-identifiers": func(n int) string { return "SELECT \"a\"" + strings.Repeat(", \"b c\"", n) + " FROM t" },
+	"many-backticks":          func(n int) string { return "SELECT `a`" + strings.Repeat(", `b`", n) + " FROM t" },
+	"nested-parens-list":      func(n int) string { return "SELECT a FROM t WHERE a IN ((1)" + strings.Repeat(", (1)", n) + ")" },
+	"between-chain": func(n int) string {
+		return "SELECT a FROM t WHERE a BETWEEN 1 AND 2" + strings.Repeat(" AND a BETWEEN 1 AND 2", n/2+1)
+	},
+	"like-chain": func(n int) string {
+		return "SELECT a FROM t WHERE a LIKE 'x'" + strings.Repeat(" OR a NOT LIKE 'y'", n/2+1)
+	},
+	"is-null-chain": func(n int) string { return "SELECT a FROM t WHERE a IS NULL" + strings.Repeat(" AND b IS NOT NULL", n) },
+	"insert-multi-row": func(n int) string {
+		return "INSERT INTO t (a, b) VALUES (1, 'x')" + strings.Repeat(", (2, 'y')", n/2+1)
+	},
+	"update-set-list": func(n int) string {
+		return "UPDATE t SET a = 1" + strings.Repeat(", b = b + 1", n/2+1) + " WHERE c = 2"
+	},
+	"select-no-from-statements": func(n int) string { return strings.Repeat("SELECT setval('s', 1);\n", n/2+1) },
+	"window-functions": func(n int) string {
+		return "SELECT a" + strings.Repeat(", SUM(b) OVER (PARTITION BY c ORDER BY d)", n/6+1) + " FROM t"
+	},
+	"subquery-list": func(n int) string { return "SELECT a" + strings.Repeat(", (SELECT 1)", n/3+1) + " FROM t" },
+	"create-table-columns": func(n int) string {
+		return "CREATE TABLE t (c0 INT" + strings.Repeat(", c1 VARCHAR(10) NOT NULL DEFAULT 'x'", n/5+1) + ")"
+	},
+	"placeholder-list": func(n int) string { return "SELECT a FROM t WHERE a IN (?" + strings.Repeat(", ?", n) + ")" },
+	"blank-runs":       func(n int) string { return "SELECT a" + strings.Repeat(" ", n*2) + "FROM t" + strings.Repeat("\n", n) },
+	"group-by-list":    func(n int) string { return "SELECT a FROM t GROUP BY a" + strings.Repeat(", a", n) },
+	"order-by-list":    func(n int) string { return "SELECT a FROM t ORDER BY a" + strings.Repeat(", a DESC", n) },
 }
 
 func c20ctes(k int) string {
